@@ -855,6 +855,13 @@ def c17(pid, tier, replay):
                 w += [{"ev": "press", "k": up}, {"ev": "release", "k": up}]
             w += [{"ev": "release", "k": "KEY_D"}, {"ev": "disconnect"}]
             far.append(w)
+        # all sixteen channels: the channel keys show the channel's colour, dimmed at the ends; MIDI-in notes on
+        # the channel that becomes current turn to the external colour
+        w = [{"ev": "midiin", "msg": [0x95, 60, 80]}, {"ev": "midiin", "msg": [0x9F, 62, 80]}]
+        for k, n in (("KEY_F6", 16), ("KEY_F5", 17)):
+            for _ in range(n):
+                w += [{"ev": "press", "k": k}, {"ev": "release", "k": k}]
+        far.append(w + [{"ev": "disconnect"}])
         groups.append([{"cfg": d["cfg"], "colors": LED_COLORS, "layout": LED_LAYOUTS[0], "walks": far}])
     def one(g):
         t, _ = run_led(scr, g)
